@@ -2,6 +2,7 @@ package main
 
 import (
 	"bufio"
+	"golang.org/x/tools/go/ssa"
 	"encoding/json"
 	"flag"
 	"fmt"
@@ -95,7 +96,62 @@ func unitsFor(P *Program, C *Contracts, prop string) (units []*Unit, trusted []s
 			units = append(units, verifyLemma(P, C, l))
 		}
 	}
+	for _, st := range C.Structurals {
+		if hasProp(st.Props, prop) {
+			units = append(units, verifyStructural(P, C, st))
+		}
+	}
 	return
+}
+
+// verifyStructural decides a syntactic obligation over the whole loaded program.
+func verifyStructural(P *Program, C *Contracts, st *Structural) *Unit {
+	u := newUnit(P, C, "structural:"+st.Kind+":"+st.Target)
+	switch st.Kind {
+	case "nocallers":
+		key := st.Target
+		if _, ok := P.Funcs[key]; !ok {
+			key = st.Pkg + "." + st.Target
+		}
+		target := P.Funcs[key]
+		if target == nil {
+			u.oblige(u.Name+"#contract-binding", "contract-binding", "function "+st.Target+" exists", "false", nil)
+			return u
+		}
+		var callers []string
+		for k, fn := range P.Funcs {
+			if !strings.HasPrefix(k, modPath) {
+				continue
+			}
+			for _, b := range fn.Blocks {
+				for _, ins := range b.Instrs {
+					if ci, ok := ins.(ssa.CallInstruction); ok && ci.Common().StaticCallee() == target {
+						callers = append(callers, shortKey(k))
+					}
+					for _, op := range ins.Operands(nil) {
+						if op != nil && *op == ssa.Value(target) {
+							if ci, ok := ins.(ssa.CallInstruction); !ok || ci.Common().Value != *op {
+								callers = append(callers, shortKey(k)+" (as a value)")
+							}
+						}
+					}
+				}
+			}
+		}
+		goal := "true"
+		desc := "no non-test code calls " + st.Target + ": " + st.Why
+		if len(callers) > 0 {
+			goal = "false"
+			desc += " — called from " + strings.Join(callers, ", ")
+		}
+		o := u.oblige(u.Name+"#nocallers", "structural", desc, goal, nil)
+		if goal == "false" {
+			o.Kind = "contract-binding"
+		}
+	default:
+		u.oblige(u.Name+"#contract-binding", "contract-binding", "unknown structural obligation "+st.Kind, "false", nil)
+	}
+	return u
 }
 
 func hasProp(ps []string, p string) bool {
